@@ -11,6 +11,7 @@ import (
 	"net"
 	"strconv"
 	"strings"
+	"sync"
 	"time"
 
 	"github.com/emitter-io/emitter/internal/network/listener"
@@ -116,6 +117,40 @@ func showReads(l []string) string {
 }
 
 // recorder notes what every Read of a matcher returned.
+// holdSock is a slow peer: the first Write stalls until released and only then takes the bytes.
+type holdSock struct {
+	chunked
+	mu      sync.Mutex
+	got     []byte
+	first   sync.Once
+	entered chan struct{}
+	release chan struct{}
+}
+
+func (h *holdSock) Write(p []byte) (int, error) {
+	h.first.Do(func() {
+		close(h.entered)
+		<-h.release
+	})
+	h.mu.Lock()
+	h.got = append(h.got, p...)
+	h.mu.Unlock()
+	return len(p), nil
+}
+
+func (h *holdSock) all() []byte {
+	h.mu.Lock()
+	defer h.mu.Unlock()
+	return append([]byte{}, h.got...)
+}
+
+func (h *holdSock) Close() error                       { return nil }
+func (h *holdSock) LocalAddr() net.Addr                { return nil }
+func (h *holdSock) RemoteAddr() net.Addr               { return nil }
+func (h *holdSock) SetDeadline(t time.Time) error      { return nil }
+func (h *holdSock) SetReadDeadline(t time.Time) error  { return nil }
+func (h *holdSock) SetWriteDeadline(t time.Time) error { return nil }
+
 type recorder struct {
 	r   io.Reader
 	log *[]string
@@ -322,6 +357,35 @@ func step(w []string, line string) string {
 				all = append(all, b...)
 			}
 			return fmt.Sprintf("ops=%s q=%d fin=%s all=%s", showReads(outs), q, fin, vlib.Hex(all))
+		case "wqc": // wqc <a> <b> <limitedB>: a write arrives while a flush is inside the socket's Write
+			// a is queued (rate limited); a flush starts and stalls inside socket.Write (slow peer); meanwhile
+			// another goroutine writes b (rate limited or not); then the socket takes the data. The client must
+			// receive a then b, each once.
+			sock := &holdSock{entered: make(chan struct{}), release: make(chan struct{})}
+			conn := listener.VerifNewConn(sock)
+			a, bb := vlib.UnHex(w[1]), vlib.UnHex(w[2])
+			conn.VerifSetLimited(true)
+			if _, err := conn.Write(a); err != nil {
+				return "err"
+			}
+			var wg sync.WaitGroup
+			wg.Add(1)
+			go func() { defer wg.Done(); conn.Flush() }()
+			select {
+			case <-sock.entered:
+			case <-time.After(5 * time.Second):
+				return "flush-never-wrote"
+			}
+			conn.VerifSetLimited(w[3] == "1")
+			wg.Add(1)
+			go func() { defer wg.Done(); conn.Write(bb) }()
+			time.Sleep(3 * time.Millisecond) // the writer is now waiting for the flush to finish (or has gone ahead)
+			close(sock.release)
+			wg.Wait()
+			if _, err := conn.Flush(); err != nil {
+				return "err"
+			}
+			return "all=" + vlib.Hex(sock.all())
 		case "wsr": // wsr <frames> <after> <drain>   frame = <opcode>:<chunk.chunk...>[!]
 			src := &frameSource{}
 			total, nchunks := 0, 0
